@@ -85,6 +85,10 @@ PURE = {
     "inherit": "{% extends 'base' %}{% block b %}C{{ block.super }}{{ a | join: ',' }}{% endblock %}{% block d %}{{ block.super }}D{% endblock %}",
     "with": "{% with z: a, y: h %}{{ z | sort | join: ',' }}{{ y.l | reverse | join: ',' }}{% endwith %}[{{ z }}]",
     "tablerow": "{% tablerow i in a cols: 2 limit: 3 %}{{ i }}{% endtablerow %}",
+    "loops": "{% for i in a reversed %}{{ i }}{% endfor %}/{% for i in h.l reversed limit: 2 offset: 1 %}{{ i }}{% endfor %}/{% for r in rows reversed %}{{ r.s }}{% endfor %}"
+             "/{% for i in t reversed %}{{ i }}{% endfor %}/{% tablerow i in h.l %}{{ i }}{% endtablerow %}/{% for p in h.m %}{{ p[1].z | first }}{% endfor %}"
+             "/{% for i in n %}{{ i | default: '-' }}{% endfor %}/{% echo a | first %}",
+    "ternary": "{{ 'y' if c == 7 else 'n' }}/{% if not c %}z{% else %}w{% endif %}/{% assign k2 = a | sort %}{{ k2 | join: ',' }}",
     "case": "{% case c %}{% when 7 %}s{% else %}o{% endcase %}{% unless c == 7 %}u{% endunless %}{% liquid\nassign zz = a | sort\necho zz | join: ','\n%}",
 }
 PARTIAL_SOURCES = {"base": "<{% block b %}B{% endblock %}|{% block d %}E{{ c }}{% endblock %}>"}
@@ -134,8 +138,15 @@ def op_source(o):
     raise MachineryError("no concrete operation for " + repr(o))
 
 
-def source_of(ops):
-    return SEP.join(op_source(o) for o in ops)
+def source_of(ops, delims="std"):
+    src = SEP.join(op_source(o) for o in ops)
+    if delims == "alt":
+        src = src.replace("{%", "[%").replace("%}", "%]").replace("{{", "[[").replace("}}", "]]")
+    return src
+
+
+FLAGS = ("ternary_expressions", "logical_not_operator", "logical_parentheses", "keyword_assignment")
+ALT = dict(tag_start_string="[%", tag_end_string="%]", statement_start_string="[[", statement_end_string="]]")
 
 
 def token_text(tok):
@@ -169,8 +180,11 @@ class World:
         if rec["implicit"]:
             return None
         if eid not in self.envs:
-            loader = (liquid.CachingDictLoader if rec["caching"] else liquid.DictLoader)(dict(self.partials))
-            self.envs[eid] = liquid.Environment(extra=True, autoescape=rec["auto"], loader=loader)
+            alt = rec["delims"] == "alt"
+            parts = {k: (v.replace("{%", "[%").replace("%}", "%]").replace("{{", "[[").replace("}}", "]]") if alt else v) for k, v in self.partials.items()}
+            loader = (liquid.CachingDictLoader if rec["caching"] else liquid.DictLoader)(parts)
+            cls = type("FlagEnvironment", (liquid.Environment,), {f: True for f in FLAGS}) if rec["flags"] else liquid.Environment
+            self.envs[eid] = cls(extra=True, autoescape=rec["auto"], loader=loader, **(ALT if alt else {}))
         return self.envs[eid]
 
     def template(self, job):
@@ -179,8 +193,11 @@ class World:
         key = (job["e"], job["t"])
         if rec["keep"] and key in self.templates:
             return self.templates[key]
-        src = source_of(job["ops"])
-        if rec["implicit"]:
+        src = source_of(job["ops"], rec["delims"])
+        if job["t"] in self.pool.get("vialoader", ()):
+            # the caller asks the loader for it, bound to its own globals (the source is among the loader's templates)
+            t = self.env(job["e"]).get_template(job["t"], globals={"gl": int(self.pool["callerglobals"])})
+        elif rec["implicit"]:
             t = liquid.Template(src, extra=True, autoescape=rec["auto"])
         else:
             t = self.env(job["e"]).from_string(src, name=job["t"])
@@ -446,33 +463,41 @@ def _in_order(task):
     return [run_history(_POOLS[fam], [i], [how])[0][0] for i in order]
 
 
-def _ref_main():
-    """python -m vf.props.c17 --ref : stdin {"alone": {family: pool}, "ordered": {family: pool}}.
-    alone: every job rendered as the first and only render of a process forked from this (so far idle) interpreter.
-    ordered: all jobs of the family one after the other in one such process, forwards and, in another, backwards."""
+def _runner_main():
+    """python -m vf.props.c17 --run : the ONLY process tree in which the library renders anything.
+    stdin  {"pools": {family: pool}, "alone": [family], "ordered": [family], "isolated": [[family, jobs, hows]], "batches": [[[family, jobs, hows]]]}
+    alone     every job of the family as the first and only render of a process forked from this (idle) interpreter
+    ordered   all jobs of the family one after the other in one such process, forwards and, in another, backwards
+    isolated  one such process per history
+    batches   16 long-lived processes replay the batches, each batch back to back
+    This interpreter itself renders nothing, holds little memory (forks are cheap) and only distributes the work."""
     fresh_repo_imports()
     req = json.load(sys.stdin)
-    _POOLS.update(req["alone"])
-    _POOLS.update(req["ordered"])
-    out = {}
+    _POOLS.update(req["pools"])
+    ref = {}
     ctx = mp.get_context("fork")
     gc.collect()
     gc.freeze()                                   # children do not copy the heap when their collector runs
-    with ctx.Pool(min(16, os.cpu_count() or 4), maxtasksperchild=1) as pl:       # one new process per task
-        tasks = [(fam, i, how) for fam, pool in req["alone"].items() for i in range(1, len(pool["jobs"]) + 1) for how in ("sync", "async")]
-        r_alone = pl.map_async(_alone, tasks, chunksize=1)
+    nproc = min(16, os.cpu_count() or 4)
+    with ctx.Pool(nproc, maxtasksperchild=1) as p1, ctx.Pool(nproc) as p2:       # p1: one new process per task
+        # (a new process costs about half a second of page faults in this sandbox however little it does, so the async
+        #  reference of the `alone` families comes from the two ordered passes, and only the sync one from a process per job)
+        tasks = [(fam, i, "sync") for fam in req["alone"] for i in range(1, len(_POOLS[fam]["jobs"]) + 1)]
         otasks = []
-        for fam, pool in req["ordered"].items():
-            n = len(pool["jobs"])
-            for how in ("sync", "async"):
+        for fam in req["ordered"] + req["alone"]:
+            n = len(_POOLS[fam]["jobs"])
+            for how in (("sync", "async") if fam in req["ordered"] else ("async",)):
                 otasks.append((fam, list(range(1, n + 1)), how))
                 otasks.append((fam, list(range(n, 0, -1)), how))
-        r_ord = pl.map_async(_in_order, otasks, chunksize=1)
+        r_iso = p1.map_async(run_isolated, req["isolated"], chunksize=1)
+        r_alone = p1.map_async(_alone, tasks, chunksize=1)
+        r_ord = p1.map_async(_in_order, otasks, chunksize=1)
+        r_bat = p2.map_async(replay_batch, req["batches"], chunksize=1)
         for (fam, i, how), rec in zip(tasks, r_alone.get()):
-            out.setdefault(fam, {}).setdefault(str(i), {})[how] = {"rec": rec}
+            ref.setdefault(fam, {}).setdefault(str(i), {})[how] = {"rec": rec}
         for (fam, order, how), recs in zip(otasks, r_ord.get()):
             for i, rec in zip(order, recs):
-                slot = out.setdefault(fam, {}).setdefault(str(i), {})
+                slot = ref.setdefault(fam, {}).setdefault(str(i), {})
                 if how in slot:
                     if not same_outcome(slot[how]["rec"]["outcome"], rec["outcome"]):
                         slot[how]["disagrees"] = rec["outcome"]
@@ -481,18 +506,21 @@ def _ref_main():
                             slot[how]["rec"][k] = rec[k]
                 else:
                     slot[how] = {"rec": rec}
+        out = {"ref": ref, "isolated": r_iso.get(), "batches": r_bat.get()}
     json.dump(out, sys.stdout)
 
 
-def reference(alone, ordered):
+def runner(pools, alone, ordered, isolated, batches):
     e = dict(os.environ)
     e["PYTHONDONTWRITEBYTECODE"] = "1"
-    p = subprocess.run([sys.executable, "-m", "vf.props.c17", "--ref"], cwd=ROOT, env=e, input=json.dumps({"alone": alone, "ordered": ordered}),
-                       capture_output=True, text=True, timeout=1500)
+    req = {"pools": pools, "alone": alone, "ordered": ordered, "isolated": isolated, "batches": batches}
+    p = subprocess.run([sys.executable, "-m", "vf.props.c17", "--run"], cwd=ROOT, env=e, input=json.dumps(req),
+                       capture_output=True, text=True, timeout=3000)
     if p.returncode != 0 or not p.stdout.startswith("{"):
-        raise MachineryError("reference interpreter failed:\n" + (p.stderr or p.stdout)[-2000:])
-    raw = json.loads(p.stdout)
-    return {fam: [[d[str(i)]["sync"], d[str(i)]["async"]] for i in range(1, len(d) + 1)] for fam, d in raw.items()}
+        raise MachineryError("runner interpreter failed:\n" + (p.stderr or p.stdout)[-2000:])
+    out = json.loads(p.stdout)
+    out["ref"] = {fam: [[d[str(i)]["sync"], d[str(i)]["async"]] for i in range(1, len(d) + 1)] for fam, d in out["ref"].items()}
+    return out
 
 
 # ---------------------------------------------------------------------------------------------------------------------------
@@ -533,11 +561,13 @@ def model_runs(jobs):
 
 
 DEVIATIONS = [("Memo", "HistoryIndependent"), ("MemoSound", "MemoSound"), ("Sort", "DataUnchanged"), ("Node", "TemplateUnchanged"),
-              ("Ctx", "ContextFresh"), ("CtxHist", "HistoryIndependent")]
+              ("Ctx", "ContextFresh"), ("CtxHist", "HistoryIndependent"), ("Rebind", "TemplateUnchanged"), ("RebindHist", "HistoryIndependent")]
 
 EXHAUSTIVE = {
-    "quick": [("pairs", "cfg/Process_quick_pairs.cfg"), ("core3", "cfg/Process_quick_core.cfg"), ("sweep", "cfg/Process_sweep.cfg")],
-    "thorough": [("full3", "cfg/Process_thorough_full.cfg"), ("core4", "cfg/Process_thorough_core.cfg"), ("sweep2", "cfg/Process_thorough_sweep.cfg")],
+    "quick": [("pairs", "cfg/Process_quick_pairs.cfg", {}), ("core3", "cfg/Process_quick_core.cfg", {}), ("sweep", "cfg/Process_sweep.cfg", {})],
+    "thorough": [("full3", "cfg/Process_thorough_full.cfg", dict(workers=6)), ("core4", "cfg/Process_thorough_core.cfg", dict(workers=6)),
+                 ("sweep2", "cfg/Process_thorough_sweep.cfg", dict(workers=4)),
+                 ("sim8", "cfg/Process_sim.cfg", dict(simulate="num=400", depth=150))],     # + seed, from VERIF_SEED
 }
 
 
@@ -630,7 +660,7 @@ def run(tier: str) -> int:
     ck = Check(PID, tier)
     rnd = random.Random(seed())
     # ---- model checking -----------------------------------------------------------------------------------------------
-    runs = [(MODULE, cfg, dict(workers=1, timeout=3000)) for _, cfg in EXHAUSTIVE[tier]]
+    runs = [(MODULE, cfg, dict(dict(workers=1, timeout=3000), **kw, **({"seed": seed() + 1} if "simulate" in kw else {}))) for _, cfg, kw in EXHAUSTIVE[tier]]
     devs = [(MODULE, f"cfg/Process_dev_{d}.cfg", dict(workers=1, timeout=600, expect_violation=True)) for d, _ in DEVIATIONS]
     import time
     t0 = time.time()
@@ -638,7 +668,7 @@ def run(tier: str) -> int:
     ck.cov["wall_model_s"] = round(time.time() - t0, 1)
     histories = []
     pools = {}
-    for (name, cfg), r in zip(EXHAUSTIVE[tier], results):
+    for (name, cfg, _kw), r in zip(EXHAUSTIVE[tier], results):
         ck.tlc(name, r)
         if r.violated:
             ck.fail(f"Process.tla {r.violated} violated in {cfg}", {"tlc": r.out[-3000:]})
@@ -660,32 +690,6 @@ def run(tier: str) -> int:
             raise MachineryError(f"deviation {d}: TLC was expected to refute {inv}, got {r.violated!r}")
     ck.cov["deviations_refuted"] = {d: inv for d, inv in DEVIATIONS}
     _POOLS.update(pools)
-
-    # ---- the reference: every job alone, in a separately started interpreter ------------------------------------------
-    t0 = time.time()
-    # every job of the full pool alone (the core pool is a sub-pool: same jobs, looked up by name); the sweep jobs in two orders
-    big = "full" if "full" in pools else "core"
-    ref = reference({big: pools[big]}, {f: p for f, p in pools.items() if f == "sweep"})
-    byname = {job_name(pools[big], i + 1): row for i, row in enumerate(ref[big])}
-    for f, p in pools.items():
-        if f not in ref:
-            try:
-                ref[f] = [byname[job_name(p, i + 1)] for i in range(len(p["jobs"]))]
-            except KeyError as ex:
-                raise MachineryError("job of pool %s is not in pool %s: %s" % (f, big, ex))
-    for fam, rows in ref.items():
-        for i, row in enumerate(rows):
-            for mode, r in zip(("sync", "async"), row):
-                if "disagrees" in r:
-                    ck.fail("HistoryIndependent: the same render gives two results in two orders of the sweep",
-                            {"job": job_name(pools[fam], i + 1), "source": source_of(pools[fam]["jobs"][i]["ops"]), "mode": mode,
-                             "forwards": r["rec"]["outcome"], "backwards": r["disagrees"]}, sig="history:%s:%s" % (fam, job_name(pools[fam], i + 1)))
-    ck.cov["wall_reference_s"] = round(time.time() - t0, 1)
-    atoms: dict = {}
-    for fam, pool in pools.items():
-        check_pure(ck, fam, pool, ref[fam], atoms)
-    ck.cov["opaque_results"] = len(atoms)
-    ck.cov["distinct_value_pairs_confirmed"] = distinct_atoms(ck, atoms)
 
     # ---- replay ----------------------------------------------------------------------------------------------------------
     seen = set()
@@ -713,8 +717,9 @@ def run(tier: str) -> int:
     def process_wide(conf):
         return any("datekey" in c for cs in conf for c in cs)
     iso = [i for i, it in enumerate(items) if process_wide(it[3]) and len(it[1]) <= 2 and set(it[2]) == ({"sync"} if tier == "quick" else {"async"})]
-    if len(iso) > (160 if tier == "quick" else 1200):
-        iso = sorted(rnd.sample(iso, 160 if tier == "quick" else 1200))
+    ck.cov["histories_meeting_in_process_wide_state"] = len(iso)
+    if len(iso) > (24 if tier == "quick" else 400):
+        iso = sorted(rnd.sample(iso, 24 if tier == "quick" else 400))
     isoset = set(iso)
     rest = [i for i in range(len(items)) if i not in isoset]
     rnd.shuffle(rest)
@@ -722,20 +727,35 @@ def run(tier: str) -> int:
     chunks = [rest[k:k + per] for k in range(0, len(rest), per)]
     res = [None] * len(items)
     t0 = time.time()
-    gc.collect()
-    gc.freeze()                                   # children do not copy the heap when their collector runs
-    ctx = mp.get_context("fork")
-    nproc = min(16, os.cpu_count() or 4)
-    # both pools are forked before this process has rendered anything (it never does)
-    with ctx.Pool(nproc, initializer=par._init, maxtasksperchild=1) as p1, ctx.Pool(nproc, initializer=par._init) as p2:
-        r_iso = p1.map_async(run_isolated, [items[i][:3] for i in iso], chunksize=1)
-        r_bat = p2.map_async(replay_batch, [[items[i][:3] for i in ch] for ch in chunks], chunksize=1)
-        for i, r in zip(iso, r_iso.get()):
-            res[i] = (r, "isolated")
-        for ch, rr in zip(chunks, r_bat.get()):
-            for i, r in zip(ch, rr):
-                res[i] = (r, "batched")
-    ck.cov["wall_replay_s"] = round(time.time() - t0, 1)
+    # every job of the full pool alone (the core pool is a sub-pool: same jobs, looked up by name); the sweep jobs in two orders
+    big = "full" if "full" in pools else "core"
+    done = runner(pools, [big], [f for f in pools if f == "sweep"], [list(items[i][:3]) for i in iso], [[list(items[i][:3]) for i in ch] for ch in chunks])
+    for i, r in zip(iso, done["isolated"]):
+        res[i] = (r, "isolated")
+    for ch, rr in zip(chunks, done["batches"]):
+        for i, r in zip(ch, rr):
+            res[i] = (r, "batched")
+    ck.cov["wall_runner_s"] = round(time.time() - t0, 1)
+    ref = done["ref"]
+    byname = {job_name(pools[big], i + 1): row for i, row in enumerate(ref[big])}
+    for f, p in pools.items():
+        if f not in ref:
+            try:
+                ref[f] = [byname[job_name(p, i + 1)] for i in range(len(p["jobs"]))]
+            except KeyError as ex:
+                raise MachineryError("job of pool %s is not in pool %s: %s" % (f, big, ex))
+    for fam, rows in ref.items():
+        for i, row in enumerate(rows):
+            for mode, r in zip(("sync", "async"), row):
+                if "disagrees" in r:
+                    ck.fail("HistoryIndependent: the same render gives two results in two orders of the sweep",
+                            {"job": job_name(pools[fam], i + 1), "source": source_of(pools[fam]["jobs"][i]["ops"]), "mode": mode,
+                             "forwards": r["rec"]["outcome"], "backwards": r["disagrees"]}, sig="history:%s:%s" % (fam, job_name(pools[fam], i + 1)))
+    atoms: dict = {}
+    for fam, pool in pools.items():
+        check_pure(ck, fam, pool, ref[fam], atoms)
+    ck.cov["opaque_results"] = len(atoms)
+    ck.cov["distinct_value_pairs_confirmed"] = distinct_atoms(ck, atoms)
     ck.cov["replays_isolated"] = len(iso)
     ck.cov["replays_batched"] = len(rest)
     again = 0
@@ -745,7 +765,7 @@ def run(tier: str) -> int:
         ck.case((fam, tuple(jobs), tuple(hows)), nontrivial=touched)
         ck.validated()
         names = [job_name(pool, j) for j in jobs]
-        base = {"family": fam, "history": names, "modes": hows, "replayed": style,
+        base = {"family": fam, "tier": tier, "job_indexes": list(jobs), "history": names, "modes": hows, "replayed": style,
                 "sources": [source_of(pool["jobs"][j - 1]["ops"]) for j in jobs],
                 "data": [pool["data"][pool["jobs"][j - 1]["d"]] for j in jobs],
                 "partials": {p: source_of(o) for p, o in pool["partials"].items()},
@@ -803,12 +823,36 @@ def run(tier: str) -> int:
 
 
 def replay(path):
+    """Re-run the history of a replay file: alone-in-a-fresh-process outcome of every render, then the history in one process."""
     fresh_repo_imports()
     d = json.load(open(path))["detail"]
-    print(json.dumps({k: d.get(k) for k in ("history", "modes", "sources", "data", "position", "observed", "alone", "difference")}, indent=1, default=str))
-    return 0
+    if "job_indexes" not in d:
+        print(json.dumps(d, indent=1, default=str))
+        return 0
+    tier = d.get("tier", "quick")
+    results = model_runs([(MODULE, cfg, dict(dict(workers=1, timeout=3000), **kw, **({"seed": seed() + 1} if "simulate" in kw else {}))) for _, cfg, kw in EXHAUSTIVE[tier]])
+    pool = None
+    for r in results:
+        for x in r.emitted:
+            if x.get("kind") == "pool" and x["family"] == d["family"]:
+                pool = x
+    if pool is None:
+        raise MachineryError("pool %s not found" % d["family"])
+    jobs, hows = d["job_indexes"], d["modes"]
+    bad = 0
+    recs, _ = in_child(run_history, pool, jobs, hows)
+    for pos, (ji, how, rec) in enumerate(zip(jobs, hows, recs)):
+        alone, _ = in_child(run_history, pool, [ji], [how])
+        ok = same_outcome(alone[0]["outcome"], rec["outcome"]) and not any(rec.get(k) for k in ("data_changed", "template_changed", "str_changed"))
+        bad += not ok
+        print("render %d  %s  %s\n   source: %s\n   alone : %s\n   here  : %s%s" % (
+            pos + 1, job_name(pool, ji), how, source_of(pool["jobs"][ji - 1]["ops"], pool["env"][pool["jobs"][ji - 1]["e"]]["delims"]),
+            alone[0]["outcome"], rec["outcome"],
+            "".join("\n   %s: %s" % (k, rec[k]) for k in ("data_changed", "template_changed", "str_changed") if rec.get(k))))
+    print("VIOLATION reproduced" if bad else "no difference")
+    return 1 if bad else 0
 
 
 if __name__ == "__main__":
-    if "--ref" in sys.argv:
-        _ref_main()
+    if "--run" in sys.argv:
+        _runner_main()
